@@ -340,8 +340,10 @@ func jobC16(c *rt.Ctx) {
 		Double(&g, &g)
 		return g
 	}
-	for i, s1 := range []*big.Int{big.NewInt(0), big.NewInt(1), a0, badd(ref.L, -1), pow2(252)} {
-		for j, s2 := range []*big.Int{big.NewInt(0), big.NewInt(1), a1} {
+	// (scalars are reduced mod L first: the multiplication takes reduced scalars, and the torsion
+	// component of the expected result depends on the reduced value)
+	for i, s1 := range []*big.Int{big.NewInt(0), big.NewInt(1), new(big.Int).Mod(a0, ref.L), badd(ref.L, -1), pow2(252)} {
+		for j, s2 := range []*big.Int{big.NewInt(0), big.NewInt(1), new(big.Int).Mod(a1, ref.L)} {
 			for pi, p := range []kpoint{allP[0], allP[7], allP[12], allP[13]} {
 				if !c.Take() {
 					continue
